@@ -38,6 +38,7 @@ import (
 	"istio.io/istio/pilot/pkg/util/protoconv"
 	xdsfilters "istio.io/istio/pilot/pkg/xds/filters"
 	"istio.io/istio/pkg/istio-agent/grpcxds"
+	"istio.io/istio/pkg/slices"
 	"istio.io/istio/pkg/util/sets"
 )
 
@@ -373,7 +374,7 @@ func (f listenerNames) inboundNames() []string {
 			out = append(out, key)
 		}
 	}
-	return out
+	return slices.Sort(out)
 }
 
 func newListenerNameFilter(names []string, node *model.Proxy) listenerNames {
